@@ -368,6 +368,21 @@ namespace sim
     return v;
   }
 
+  // a knob that exploration never varies (no PRNG draw): it has its default unless a replay file says otherwise - used to
+  // pin the reproduction of a known finding to a trace file without ever meeting it in the seed sweep
+  long long cfg_fixed(const char* name, long long dflt)
+  {
+    if(W->st.cfg.count(name)) fail("INFRA", std::string("configuration knob drawn twice in one run: ") + name);
+    long long v = dflt;
+    if(W->opt.replay)
+    {
+      auto it = W->opt.cfg_in.find(name);
+      if(it != W->opt.cfg_in.end()) v = it->second;
+    }
+    W->st.cfg[name] = v;
+    return v;
+  }
+
   bool thorough()
   {
     auto it = W->st.cfg.find("thorough");
